@@ -76,7 +76,7 @@ HIST_ASSUME = [
     "solving or writing a problem without any column is treated as out of scope (such histories are counted as inapplicable)",
     "a history is explored as a full tree without state merging: each item replays start + ops on a fresh object inside one QSexactStart..QSexactClear bracket",
 ]
-HIST_RULE = ("item = (start problem in {empty,1x1,testsuite3x2,ranged2x2,degenerate3x3,infeasible2x2}, op_1..op_d) over the operation alphabet of "
+HIST_RULE = ("item = (start problem in {empty,1x1,testsuite3x2,ranged2x2,degenerate3x3,infeasible2x2,singleton3x3}, op_1..op_d) over the operation alphabet of "
              "harness/h_hist.c (66 concrete transitions; 'reduced' keeps the 24 that touch basis/cache/factorization); every item is executed on the real library "
              "in lock-step with the model; non-trivial = every op of the history was applicable in the state it was issued in")
 
@@ -86,7 +86,7 @@ PLANS["C05"] = {
     "quick": [hist("hist-d1-san", "san", 1), hist("hist-d2-san", "san", 2, weight=3), hist("hist-d3r-prod", "prod", 3, reduced=1, weight=3)],
     "thorough": [hist("hist-d2-san", "san", 2), hist("hist-d3r-san", "san", 3, reduced=1, weight=4), hist("hist-d3-prod", "prod", 3, weight=10),
                  hist("hist-d4r-prod", "prod", 4, reduced=1, weight=10)],
-    "bounds": {"quick": "all histories of depth <= 2 over the full alphabet; depth 3 over the reduced alphabet; 6 start problems",
+    "bounds": {"quick": "all histories of depth <= 2 over the full alphabet; depth 3 over the reduced alphabet; 7 start problems",
                "thorough": "depth 3 over the full alphabet, depth 4 over the reduced alphabet"},
     "evidence": {"states": ["histories"], "transitions": ["api_transitions"], "nontrivial": ["histories"]},
     "assumptions": HIST_ASSUME,
@@ -106,7 +106,7 @@ PLANS["C07"] = {
              "problem still solves to the model's answer; non-trivial = the variant denotes an invalid call in that state"),
     "quick": [hist("inv-d0-san", "san", 0, family="inv"), hist("inv-d1-prod", "prod", 1, family="inv", weight=4), hist("inv-d1r-san", "san", 1, reduced=1, family="inv", weight=4)],
     "thorough": [hist("inv-d1-san", "san", 1, family="inv", weight=4), hist("inv-d2r-prod", "prod", 2, reduced=1, family="inv", weight=8)],
-    "bounds": {"quick": "lifecycle states = 6 starts x every valid prefix of length <= 1 (67 prefixes) x 236 invalid calls",
+    "bounds": {"quick": "lifecycle states = 7 starts x every valid prefix of length <= 1 (67 prefixes) x 236 invalid calls",
                "thorough": "prefixes of length <= 2 over the reduced alphabet"},
     "evidence": {"states": ["invalid_calls"], "transitions": ["api_transitions"], "nontrivial": ["invalid_calls"]},
     "assumptions": HIST_ASSUME,
